@@ -19,6 +19,7 @@ import (
 	"github.com/ipni/go-libipni/find/model"
 	"github.com/libp2p/go-libp2p/core/peer"
 	b58 "github.com/mr-tron/base58/base58"
+	"github.com/multiformats/go-multiaddr"
 	"github.com/multiformats/go-multihash"
 
 	"verifharness/internal/ids"
@@ -141,6 +142,23 @@ func dhstoreServer() string {
 			}
 			json.NewEncoder(w).Encode(map[string][]byte{"EncryptedMetadata": md})
 		})
+		// the provider source of the client's provider cache (lookups that are not metadata-only)
+		mux.HandleFunc("/providers", func(w http.ResponseWriter, r *http.Request) {
+			var all []*model.ProviderInfo
+			for _, n := range []string{"ed", "rsa"} {
+				all = append(all, &model.ProviderInfo{AddrInfo: peer.AddrInfo{ID: pidOf(n), Addrs: []multiaddr.Multiaddr{ids.Addr(n)}}, LastAdvertisementTime: "2024-01-01T00:00:00Z"})
+			}
+			json.NewEncoder(w).Encode(all)
+		})
+		mux.HandleFunc("/providers/", func(w http.ResponseWriter, r *http.Request) {
+			for _, n := range []string{"ed", "rsa"} {
+				if path.Base(r.URL.Path) == pidOf(n).String() {
+					json.NewEncoder(w).Encode(&model.ProviderInfo{AddrInfo: peer.AddrInfo{ID: pidOf(n), Addrs: []multiaddr.Multiaddr{ids.Addr(n)}}, LastAdvertisementTime: "2024-01-01T00:00:00Z"})
+					return
+				}
+			}
+			http.NotFound(w, r)
+		})
 		httpURL = httptest.NewServer(mux).URL
 	})
 	return httpURL
@@ -202,7 +220,9 @@ func runCase(tc *tcase, salt int, viaHTTP bool) (got [][]string, panicked string
 		httpStore = st
 		opt = client.WithDHStoreURL(dhstoreServer())
 	}
-	cl, e := client.NewDHashClient(opt, client.WithMetadataOnly(true))
+	// through HTTP every other case resolves the providers through the client's provider cache instead of metadata-only
+	metadataOnly := !viaHTTP || (salt/4)%2 == 0
+	cl, e := client.NewDHashClient(opt, client.WithMetadataOnly(metadataOnly))
 	if e != nil {
 		return nil, "", e
 	}
